@@ -2,26 +2,74 @@
 C01 (fragments F2…): the induction step and the round-trip theorem for a feature set.
 -/
 import XsdataModel.Proofs.C01NSeq
+import XsdataModel.Proofs.C01NTypes
 
 namespace Proofs.C01
 open Py Xs.Bind Xs.Bind.F1 Xs.Bind.FN
 
 theorem treeNN_obj (Γ : Ctx) (cfg : SerCfg) (M : NsMap) (n : Nat) (pns : Option Str) (nl : Bool)
+    (xt : Option QN)
     (q : QN) (c : ClassId) (fields : List (Str × Val)) {m : XmlMeta} (hm : metaOf Γ c pns = some m) :
-    treeNN Γ cfg M (n + 1) pns nl q (.obj c fields) =
+    treeNN Γ cfg M (n + 1) pns nl xt q (.obj c fields) =
       match m.text with
       | some tv =>
-        .node q (if textHasData (look fields tv.name) then attrPairsN cfg m.attributeVars fields
-                 else attrPairsN cfg m.attributeVars fields ++ nilAttr (nl || m.nillable)) M
+        .node q (if textHasData (look fields tv.name) then attrPairsT cfg M m.attributeVars fields xt
+                 else attrPairsT cfg M m.attributeVars fields xt ++ nilAttr (nl || m.nillable)) M
           (textTextN (look fields tv.name)) [] none
       | none =>
         .node q
-          (if (kidsN M (treeNN Γ cfg M n (targetUri m.qname)) m fields).isEmpty
-           then attrPairsN cfg m.attributeVars fields ++ nilAttr (nl || m.nillable)
-           else attrPairsN cfg m.attributeVars fields) M none
-          (kidsN M (treeNN Γ cfg M n (targetUri m.qname)) m fields) none := by
+          (if (kidsN M (itemRec Γ cfg M n (targetUri m.qname)) m fields).isEmpty
+           then attrPairsT cfg M m.attributeVars fields xt ++ nilAttr (nl || m.nillable)
+           else attrPairsT cfg M m.attributeVars fields xt) M none
+          (kidsN M (itemRec Γ cfg M n (targetUri m.qname)) m fields) none := by
   simp only [treeNN, hm]
   cases m.text <;> rfl
+
+/-- the events of an item are among the events of the body -/
+theorem mapM_ok_mem {α β : Type} (f : α → Except Err β) :
+    ∀ (l : List α) (r : List β), l.mapM f = .ok r → ∀ a ∈ l, ∃ b, f a = .ok b ∧ b ∈ r := by
+  intro l
+  induction l with
+  | nil => intro r _ a ha; cases ha
+  | cons x xs ih =>
+    intro r h a ha
+    rw [List.mapM_cons] at h
+    cases hx : f x with
+    | error err => simp [hx, bind, Except.bind] at h
+    | ok b =>
+      cases hxs : xs.mapM f with
+      | error err => simp [hx, hxs, bind, Except.bind] at h
+      | ok bs =>
+        simp only [hx, hxs, bind, Except.bind, pure, Except.pure, Except.ok.injEq] at h
+        subst h
+        rcases List.mem_cons.1 ha with rfl | ha'
+        · exact ⟨b, hx, by simp⟩
+        · obtain ⟨b', hb', hm⟩ := ih bs hxs a ha'
+          exact ⟨b', hb', by simp [hm]⟩
+
+theorem item_evs_mem_body (e : BEnv) (Γ : Ctx) (cfg : SerCfg) {m : XmlMeta} (ns : Option Str)
+    (chunks : List (XmlVar × Val)) (f : Nat) {body : List (List Ev)}
+    (hb : chunks.mapM (genField e Γ cfg (f + 1) ns) = .ok body)
+    {c : XmlVar × Val} (hc : c ∈ chunks) (hf : ElemFactsN m c.1) (hs : Shape c.1 c.2)
+    (hx : c.2 ≠ .none ∨ c.1.nillable = true) {y : Val} (hy : y ∈ itemsN c.1 c.2) {evs : List Ev}
+    (hg : itemGen e Γ cfg c.1 ns (chunkFuel c.2 f) y = .ok evs) : ∀ ev ∈ evs, ev ∈ body.flatten := by
+  intro ev hev
+  obtain ⟨b, hgb, hbm⟩ := mapM_ok_mem _ _ _ hb c hc
+  have hin : ev ∈ b := by
+    simp only [genField, genValue_chunk e Γ cfg hf hs hx ns f] at hgb
+    cases hparts : (itemsN c.1 c.2).mapM (itemGen e Γ cfg c.1 ns (chunkFuel c.2 f)) with
+    | error err => simp [hparts, bind, Except.bind, Except.map] at hgb
+    | ok parts =>
+      obtain ⟨evs', hg', hm'⟩ := mapM_ok_mem _ _ _ hparts y hy
+      rw [hg] at hg'; cases hg'
+      have hfl : ev ∈ parts.flatten := List.mem_flatten.2 ⟨evs, hm', hev⟩
+      simp only [hparts, bind, Except.bind, Except.map] at hgb
+      cases hw : c.1.wrapperQName with
+      | none => simp only [hw, pure, Except.pure, Except.ok.injEq] at hgb; rw [← hgb]; exact hfl
+      | some w =>
+        simp only [hw, pure, Except.pure, Except.ok.injEq] at hgb
+        rw [← hgb]; simp [hfl]
+  exact List.mem_flatten.2 ⟨b, hbm, hin⟩
 
 theorem eq_of_nodup_qname {l : List XmlVar} (h : (l.map (·.qname)).Nodup) {a b : XmlVar}
     (ha : a ∈ l) (hb : b ∈ l) (hq : a.qname = b.qname) : a = b := by
@@ -148,15 +196,15 @@ theorem genField_textN (e : BEnv) (Γ : Ctx) (cfg : SerCfg) (f : Nat) (ns : Opti
 
 /-- the induction step -/
 theorem main_stepN (ft : Feat) (e : BEnv) (Γ : Ctx) (cfg : SerCfg) (pcfg : ParserConfig) (M : NsMap)
-    (hΓ : ctxOK ft Γ = true) (n : Nat) (IH : MainStmtN e Γ cfg pcfg M n) :
-    MainStmtN e Γ cfg pcfg M (n + 1) := by
-  intro v c pnsG pnsP oq q fuel mg mp nl hmg hmp hdq hq hns hval hfuel
+    (hΓ : ctxOK ft Γ = true) (n : Nat) (IH : MainStmtN ft e Γ cfg pcfg M n) :
+    MainStmtN ft e Γ cfg pcfg M (n + 1) := by
+  intro v c pnsG pnsP oq q fuel mg mp nl xt hmg hmp hdq hq hns hval hfuel
   cases v with
   | obj cls fields =>
     obtain ⟨ci, hfind, hmf⟩ : ∃ ci, Γ.find c = some ci ∧ ci.metaFor pnsP = some mp := by
       simpa [metaOf, Option.bind_eq_some_iff] using hmp
     simp only [FN.valObjN, hfind, hmf, Bool.and_eq_true, decide_eq_true_eq, List.all_eq_true] at hval
-    obtain ⟨hcls, ⟨hnames, hattrs⟩, hbody⟩ := hval
+    obtain ⟨⟨hcls, hxtok⟩, ⟨⟨hnames, hxtmap⟩, hattrs⟩, hbody⟩ := hval
     subst hcls
     obtain ⟨MF, _⟩ := ctx_metaFactsN hΓ hfind hmf
     obtain ⟨hAnames, hEnames, hAE⟩ := nodup_append_names MF.nameNodup
@@ -165,22 +213,101 @@ theorem main_stepN (ft : Feat) (e : BEnv) (Γ : Ctx) (cfg : SerCfg) (pcfg : Pars
     -- attributes
     have hAF : ∀ var ∈ mp.attributeVars, AttrFactsN e Γ mp fields var :=
       fun var hv => attrFactsN_of (MF.attrs var hv) (hattrs var hv) hnames
-    have hAkeys := attrPairsN_keys cfg mp.attributeVars hAF
-    have hAW := fun nil => attrsW_all M cfg nil hAF (attrPairsN_nodup cfg _ hAF MF.attrNodup)
-    have hBindA := fun nil (hany : nil = true → mp.anyAttributes = []) =>
-      bindAttrs_N pcfg cfg mp fields M nil hAF hAnames MF.noNilAttr hany
+    have hAkeysN := attrPairsN_keys cfg mp.attributeVars hAF
+    have hAkeys : ∀ kv ∈ attrPairsT cfg M mp.attributeVars fields xt, kv.1 ≠ xsiNil := by
+      intro kv hkv
+      rcases List.mem_append.1 hkv with h | h
+      · exact (hAkeysN kv h).1
+      · rw [typeAttr_keys kv h]; decide
+    have hAW : ∀ nil, AttrsW M (isDatatype Γ)
+        (attrEvsT cfg mp.attributeVars fields xt ++ nilEvs nil)
+        (attrPairsT cfg M mp.attributeVars fields xt ++ nilAttr nil) := by
+      intro nil
+      have h0 := attrsW_all M cfg false hAF (attrPairsN_nodup cfg _ hAF MF.attrNodup)
+      simp only [nilEvs, nilAttr, Bool.false_eq_true, if_false, List.append_nil] at h0
+      refine (h0.append (AttrsW_typeAttr M _ xt) ?_).append (AttrsW_nilAttr M _ nil) ?_
+      · intro a ha b hb
+        rw [typeAttr_keys b hb]; exact (hAkeysN a ha).2
+      · intro a ha b hb
+        rw [nilAttr_keys b hb]; exact hAkeys a ha
+    -- `xsi:type` is written for a subclass only: no declared attribute of that name, no map
+    have hxtI : ∀ t, xt = some t → ft.inherit = true ∧ typeNameOK e t = true := by
+      intro t ht
+      simpa [ht] using hxtok
+    have hxtAny : ∀ kv ∈ typeAttr M xt, mp.findAttribute kv.1 = none ∧ mp.findAnyAttributes kv.1 = none ∧
+        targetUri kv.1 = some xsiNs := by
+      intro kv hkv
+      rw [typeAttr_keys kv hkv]
+      cases hx : xt with
+      | none => simp [hx, typeAttr] at hkv
+      | some t =>
+        have hany : mp.anyAttributes = [] := by simpa [hx] using hxtmap
+        exact ⟨MF.noTypeAttr (hxtI t hx).1, by simp [XmlMeta.findAnyAttributes, hany, findByNamespace],
+          by decide⟩
+    have hBindA : ∀ nil, (nil = true → mp.anyAttributes = []) →
+        bindAttrs e pcfg mp (attrPairsT cfg M mp.attributeVars fields xt ++ nilAttr nil) M =
+          .ok (attrParamsN cfg mp.attributeVars fields, 0) := by
+      intro nil hany
+      have := bindAttrs_NX pcfg cfg mp fields M (typeAttr M xt ++ nilAttr nil) hAF hAnames (by
+        intro kv hkv
+        rcases List.mem_append.1 hkv with h | h
+        · exact hxtAny kv h
+        · rw [nilAttr_keys kv h]
+          cases nil with
+          | false => simp [nilAttr] at h
+          | true =>
+            exact ⟨MF.noNilAttr, by simp [XmlMeta.findAnyAttributes, hany rfl, findByNamespace], by decide⟩)
+      simpa [attrPairsT, List.append_assoc] using this
+    -- under the hypothesis on the prefix map the parser reads the `xsi:type` back
+    have hXT : ∀ (X : List Ev) (b : Bool),
+        TypesGood e M ([Ev.start q] ++ (attrEvsT cfg mp.attributeVars fields xt ++ nilEvs (nl || mp.nillable)) ++
+          X ++ [Ev.end q]) →
+        xsiTypeOf e (attrPairsT cfg M mp.attributeVars fields xt ++ nilAttr b) M = .ok xt := by
+      intro X b hgood
+      cases hx : xt with
+      | none =>
+        apply xsiTypeOf_none
+        intro kv hkv
+        simp only [attrPairsT, typeAttr, List.append_nil] at hkv
+        rcases List.mem_append.1 hkv with h | h
+        · exact (hAkeysN kv h).2
+        · exact nilAttr_noType b kv h
+      | some t =>
+        have hok := (hxtI t hx).2
+        have hne : t.isEmpty = false := by
+          cases t with
+          | nil => exact absurd rfl (typeNameOK_ne_nil hok)
+          | cons _ _ => rfl
+        have hmem : Ev.attr xsiType (.prim (.qname t)) ∈ [Ev.start q] ++
+            (attrEvsT cfg mp.attributeVars fields xt ++ nilEvs (nl || mp.nillable)) ++ X ++ [Ev.end q] := by
+          simp [attrEvsT, typeEvs, hx, hne]
+        have := hgood t hmem hok
+        have hfind : (attrPairsT cfg M mp.attributeVars fields (some t) ++ nilAttr b).find?
+            (fun x => decide (x.1 = xsiType)) = some (xsiType, qnameText M t) := by
+          have h0 : (attrPairsN cfg mp.attributeVars fields).find? (fun x => decide (x.1 = xsiType)) = none := by
+            simp only [List.find?_eq_none, decide_eq_true_eq]
+            exact fun kv hkv => (hAkeysN kv hkv).2
+          simp [attrPairsT, typeAttr, hne, List.find?_append, h0]
+        simp only [xsiTypeOf, hfind] at this ⊢
+        simpa using this
+    have hXT0 : ∀ (X : List Ev),
+        TypesGood e M ([Ev.start q] ++ (attrEvsT cfg mp.attributeVars fields xt ++ nilEvs (nl || mp.nillable)) ++
+          X ++ [Ev.end q]) →
+        xsiTypeOf e (attrPairsT cfg M mp.attributeVars fields xt) M = .ok xt := by
+      intro X hgood
+      simpa [nilAttr] using hXT X false hgood
     -- the generator up to the element content
     have hnilG : mg.nillable = mp.nillable := by
       show (dropQ mg).nillable = (dropQ mp).nillable
       rw [hdq]
-    have hGA : nextAttribute cfg mg fields (nl || mg.nillable) none =
-        .ok (attrEvsN cfg mp.attributeVars fields ++ nilEvs (nl || mp.nillable)) := by
+    have hGA : nextAttribute cfg mg fields (nl || mg.nillable) xt =
+        .ok (attrEvsT cfg mp.attributeVars fields xt ++ nilEvs (nl || mp.nillable)) := by
       rw [← nextAttribute_dropQ, hdq, nextAttribute_dropQ, hnilG]
-      exact nextAttribute_N cfg mp fields _ hAF
+      exact nextAttribute_N cfg mp fields _ xt hAF
     have hNV : nextValue mg fields = nextValue mp fields := by
       rw [← nextValue_dropQ, hdq, nextValue_dropQ]
-    rw [genObj_unfoldN e Γ cfg f cls fields pnsG oq mg nl hmg, hq, hGA, hNV,
-      treeNN_obj Γ cfg M n pnsP nl q cls fields hmp]
+    rw [genObj_unfoldN e Γ cfg f cls fields pnsG oq mg nl hmg xt, hq, hGA, hNV,
+      treeNN_obj Γ cfg M n pnsP nl xt q cls fields hmp]
     have hfactoryA : ∀ (P : Params), (∀ var ∈ mp.attributeVars,
           P.get var.name = (attrParamOf cfg fields var).map (·.2)) →
         ∀ fi ∈ ci.fields, ∀ var ∈ mp.attributeVars, var.name = fi.name → FieldOK P fields fi :=
@@ -253,10 +380,10 @@ theorem main_stepN (ft : Feat) (e : BEnv) (Γ : Ctx) (cfg : SerCfg) (pcfg : Pars
               .ok (⟨([] : List (XmlVar × Val)).map (fun en => (some en.1.qname, en.2)), 0⟩, {}) := by
             simp [parseKids]
           have hWs0 : WsOK ({} : ElState).wrappers [] := trivial
-          have hxnA : xsiNilOf (attrPairsN cfg mp.attributeVars fields) = none := by
-            simpa [nilAttr] using xsiNilOf_append (attrPairsN cfg mp.attributeVars fields)
-              (fun kv hkv => (hAkeys kv hkv).1) false
-          have hBindA0 : bindAttrs e pcfg mp (attrPairsN cfg mp.attributeVars fields) M =
+          have hxnA : xsiNilOf (attrPairsT cfg M mp.attributeVars fields xt) = none := by
+            simpa [nilAttr] using xsiNilOf_append (attrPairsT cfg M mp.attributeVars fields xt)
+              hAkeys false
+          have hBindA0 : bindAttrs e pcfg mp (attrPairsT cfg M mp.attributeVars fields xt) M =
               .ok (attrParamsN cfg mp.attributeVars fields, 0) := by
             simpa [nilAttr] using hBindA false (fun h => by cases h)
           have hF : classFactory Γ mp.clazz (attrParamsN cfg mp.attributeVars fields) = .ok (.obj cls fields) := by
@@ -273,7 +400,7 @@ theorem main_stepN (ft : Feat) (e : BEnv) (Γ : Ctx) (cfg : SerCfg) (pcfg : Pars
           obtain ⟨f', rfl⟩ : ∃ f', f = f' + 1 := ⟨f - 1, by omega⟩
           have hgen := genField_textN e Γ cfg f' (targetUri q) hmixed hisText hwrap
             (encodePrimitive_prim hpt')
-          have hT : ∃ bt, bindText e pcfg mp (xsiNilOf (attrPairsN cfg mp.attributeVars fields)) M
+          have hT : ∃ bt, bindText e pcfg mp (xsiNilOf (attrPairsT cfg M mp.attributeVars fields xt)) M
               (bindEntries (attrParamsN cfg mp.attributeVars fields) []) (optText (serPrim p)) =
               .ok (bt, attrParamsN cfg mp.attributeVars fields, 0) := by
             by_cases hs : serPrim p = []
@@ -287,18 +414,18 @@ theorem main_stepN (ft : Feat) (e : BEnv) (Γ : Ctx) (cfg : SerCfg) (pcfg : Pars
             MF.choices MF.wild (fun h => by rw [hxnA] at h; cases h) hK (fun _ h => by cases h)
             hWs0 hBindA0 hT hF
           have hsubw := SubW_elem_dataN (M := M) (isDt := isDatatype Γ) q
-            (attrEvsN cfg mp.attributeVars fields ++ nilEvs (nl || mp.nillable))
-            (attrPairsN cfg mp.attributeVars fields) (nl || mp.nillable) (.prim (.str (serPrim p)))
-            (some (serPrim p)) rfl (hAW _) (fun kv hkv => (hAkeys kv hkv).1)
-          refine ⟨[Ev.start q] ++ (attrEvsN cfg mp.attributeVars fields ++ nilEvs (nl || mp.nillable)) ++
+            (attrEvsT cfg mp.attributeVars fields xt ++ nilEvs (nl || mp.nillable))
+            (attrPairsT cfg M mp.attributeVars fields xt) (nl || mp.nillable) (.prim (.str (serPrim p)))
+            (some (serPrim p)) rfl (hAW _) hAkeys
+          refine ⟨[Ev.start q] ++ (attrEvsT cfg mp.attributeVars fields xt ++ nilEvs (nl || mp.nillable)) ++
               [Ev.data (.prim (.str (serPrim p)))] ++ [Ev.end q],
-            attrPairsN cfg mp.attributeVars fields, optText (serPrim p), [], ?_, ?_, ?_, ?_,
-            fun kv hkv => (hAkeys kv hkv).2, Or.inl hxnA, ?_⟩
+            attrPairsT cfg M mp.attributeVars fields xt, optText (serPrim p), [], ?_, ?_, ?_, ?_,
+            Or.inl hxnA, fun hgood => ⟨hXT0 _ hgood, ?_⟩⟩
           · simp [hNVe, hlook, emitOfN, hgen, bind, Except.bind, pure, Except.pure]
           · simp [hlook, textHasData, textTextN]
           · simpa [hlook, textHasData, textTextN, treeSax_optText] using hsubw
           · simp [plain, plainList]
-          · simpa [hlook, textHasData, textTextN] using hparse
+          · intro xtN; simpa [hlook, textHasData, textTextN] using hparse xtN
       | true =>
         have hfa : fieldAgrees ci tv = true := fieldAgrees_of_N hfaN hinit
         have hin : tv.name ∈ fields.map (·.1) := by rw [hnames]; exact mem_names_of_find hf0
@@ -335,10 +462,10 @@ theorem main_stepN (ft : Feat) (e : BEnv) (Γ : Ctx) (cfg : SerCfg) (pcfg : Pars
             obtain ⟨hfind', hi', _⟩ := field_of_var hfa MF.fieldNodup hfi hname
             rw [hf0] at hfind'; cases hfind'
             exact Or.inl ⟨hi', by rw [← hname]; exact hT⟩
-        have hxnA : xsiNilOf (attrPairsN cfg mp.attributeVars fields) = none := by
-          simpa [nilAttr] using xsiNilOf_append (attrPairsN cfg mp.attributeVars fields)
-            (fun kv hkv => (hAkeys kv hkv).1) false
-        have hBindA0 : bindAttrs e pcfg mp (attrPairsN cfg mp.attributeVars fields) M =
+        have hxnA : xsiNilOf (attrPairsT cfg M mp.attributeVars fields xt) = none := by
+          simpa [nilAttr] using xsiNilOf_append (attrPairsT cfg M mp.attributeVars fields xt)
+            hAkeys false
+        have hBindA0 : bindAttrs e pcfg mp (attrPairsT cfg M mp.attributeVars fields xt) M =
             .ok (attrParamsN cfg mp.attributeVars fields, 0) := by
           simpa [nilAttr] using hBindA false (fun h => by cases h)
         -- the typed text value
@@ -371,35 +498,35 @@ theorem main_stepN (ft : Feat) (e : BEnv) (Γ : Ctx) (cfg : SerCfg) (pcfg : Pars
                 rcases hTX.2 with h | h
                 · exact h
                 · simp [hlook, Val.truthy] at h
-              have hT : bindText e pcfg mp (xsiNilOf (attrPairsN cfg mp.attributeVars fields)) M
+              have hT : bindText e pcfg mp (xsiNilOf (attrPairsT cfg M mp.attributeVars fields xt)) M
                   (bindEntries (attrParamsN cfg mp.attributeVars fields) []) none =
                   .ok (false, attrParamsN cfg mp.attributeVars fields, 0) := by
                 simp [bindText, htext, bindEntries, hxnA]
               have hF := hFgen (attrParamsN cfg mp.attributeVars fields) hPA
                 (Or.inr ⟨hPAtv, by rw [hlook]; exact hdef⟩)
-              have hparse := parseNode_element_N e Γ pcfg mp q (attrPairsN cfg mp.attributeVars fields) M
+              have hparse := parseNode_element_N e Γ pcfg mp q (attrPairsT cfg M mp.attributeVars fields xt) M
                 none [] [] {} _ _ false (.obj cls fields) MF.choices MF.wild
                 (fun h => by rw [hxnA] at h; cases h) hK (fun _ h => by cases h) hWs0 hBindA0 hT hF
               have hsubw := SubW_elem_dataN (M := M) (isDt := isDatatype Γ) q
-                (attrEvsN cfg mp.attributeVars fields ++ nilEvs (nl || mp.nillable))
-                (attrPairsN cfg mp.attributeVars fields) (nl || mp.nillable) (tokData []) none rfl
-                (hAW _) (fun kv hkv => (hAkeys kv hkv).1)
-              refine ⟨[Ev.start q] ++ (attrEvsN cfg mp.attributeVars fields ++ nilEvs (nl || mp.nillable)) ++
+                (attrEvsT cfg mp.attributeVars fields xt ++ nilEvs (nl || mp.nillable))
+                (attrPairsT cfg M mp.attributeVars fields xt) (nl || mp.nillable) (tokData []) none rfl
+                (hAW _) hAkeys
+              refine ⟨[Ev.start q] ++ (attrEvsT cfg mp.attributeVars fields xt ++ nilEvs (nl || mp.nillable)) ++
                   [Ev.data (tokData [])] ++ [Ev.end q],
-                attrPairsN cfg mp.attributeVars fields, none, [], ?_, ?_, ?_, ?_,
-                fun kv hkv => (hAkeys kv hkv).2, Or.inl hxnA, ?_⟩
+                attrPairsT cfg M mp.attributeVars fields xt, none, [], ?_, ?_, ?_, ?_,
+                Or.inl hxnA, fun hgood => ⟨hXT0 _ hgood, ?_⟩⟩
               · simp [hNVe, hlook, emitOfN, hgen, bind, Except.bind, pure, Except.pure]
               · simp [hlook, textHasData, hN, nilAttr, textTextN, optText, joinTok, tokStrs, List.intercalate]
               · simpa [hlook, textHasData, hN, nilAttr, textTextN, optText, joinTok, tokStrs,
                   List.intercalate, treeSax, treesSax, dataSax] using hsubw
               · simp [plain, plainList]
-              · simpa [hlook, textHasData, hN, nilAttr, textTextN, optText, joinTok, tokStrs,
-                  List.intercalate] using hparse
+              · intro xtN; simpa [hlook, textHasData, hN, nilAttr, textTextN, optText, joinTok, tokStrs,
+                  List.intercalate] using hparse xtN
             | cons a l =>
               have hpv := parseVar_toks e pcfg tv.toVarCore M htok hty hys
               have hjoin : optText (joinTok (a :: l)) = some (joinTok (a :: l)) := by
                 simp [optText, joinTok_ne_nil hys]
-              have hT : bindText e pcfg mp (xsiNilOf (attrPairsN cfg mp.attributeVars fields)) M
+              have hT : bindText e pcfg mp (xsiNilOf (attrPairsT cfg M mp.attributeVars fields xt)) M
                   (bindEntries (attrParamsN cfg mp.attributeVars fields) []) (some (joinTok (a :: l))) =
                   .ok (true, (attrParamsN cfg mp.attributeVars fields).set tv.name (.list (a :: l)), 0) := by
                 simp [bindText, htext, bindEntries, hxnA, hpv, hinit, bind, Except.bind, pure, Except.pure]
@@ -408,24 +535,24 @@ theorem main_stepN (ft : Feat) (e : BEnv) (Γ : Ctx) (cfg : SerCfg) (pcfg : Pars
                   rw [Params.get_set_ne _ _ (fun h => htvA (List.mem_map.2 ⟨var, hv, h⟩))]
                   exact hPA var hv)
                 (Or.inl (by rw [Params.get_set_self, hlook]))
-              have hparse := parseNode_element_N e Γ pcfg mp q (attrPairsN cfg mp.attributeVars fields) M
+              have hparse := parseNode_element_N e Γ pcfg mp q (attrPairsT cfg M mp.attributeVars fields xt) M
                 (some (joinTok (a :: l))) [] [] {} _ _ true (.obj cls fields) MF.choices MF.wild
                 (fun h => by rw [hxnA] at h; cases h) hK (fun _ h => by cases h) hWs0 hBindA0 hT hF
               have hsubw := SubW_elem_dataN (M := M) (isDt := isDatatype Γ) q
-                (attrEvsN cfg mp.attributeVars fields ++ nilEvs (nl || mp.nillable))
-                (attrPairsN cfg mp.attributeVars fields) (nl || mp.nillable) (tokData (a :: l)) _
-                (encodeData_toks M hys) (hAW _) (fun kv hkv => (hAkeys kv hkv).1)
-              refine ⟨[Ev.start q] ++ (attrEvsN cfg mp.attributeVars fields ++ nilEvs (nl || mp.nillable)) ++
+                (attrEvsT cfg mp.attributeVars fields xt ++ nilEvs (nl || mp.nillable))
+                (attrPairsT cfg M mp.attributeVars fields xt) (nl || mp.nillable) (tokData (a :: l)) _
+                (encodeData_toks M hys) (hAW _) hAkeys
+              refine ⟨[Ev.start q] ++ (attrEvsT cfg mp.attributeVars fields xt ++ nilEvs (nl || mp.nillable)) ++
                   [Ev.data (tokData (a :: l))] ++ [Ev.end q],
-                attrPairsN cfg mp.attributeVars fields, some (joinTok (a :: l)), [], ?_, ?_, ?_, ?_,
-                fun kv hkv => (hAkeys kv hkv).2, Or.inl hxnA, ?_⟩
+                attrPairsT cfg M mp.attributeVars fields xt, some (joinTok (a :: l)), [], ?_, ?_, ?_, ?_,
+                Or.inl hxnA, fun hgood => ⟨hXT0 _ hgood, ?_⟩⟩
               · simp [hNVe, hlook, emitOfN, hgen, bind, Except.bind, pure, Except.pure]
               · simp [hlook, textHasData, textTextN, hjoin]
-              · have := treeSax_optText M q (attrPairsN cfg mp.attributeVars fields) (joinTok (a :: l))
+              · have := treeSax_optText M q (attrPairsT cfg M mp.attributeVars fields xt) (joinTok (a :: l))
                 rw [hjoin] at this
                 simpa [hlook, textHasData, textTextN, hjoin, this] using hsubw
               · simp [plain, plainList]
-              · simpa [hlook, textHasData, textTextN, hjoin] using hparse
+              · intro xtN; simpa [hlook, textHasData, textTextN, hjoin] using hparse xtN
           · have htok' : tv.tokens = false := by simpa using htok
             simp only [htok', Bool.false_eq_true, if_false] at hTX hkind
             split at hTX
@@ -434,10 +561,10 @@ theorem main_stepN (ft : Feat) (e : BEnv) (Γ : Ctx) (cfg : SerCfg) (pcfg : Pars
               have hnc : needContent nl mp = false := by
                 simpa [hlook, textHasData] using hcontent
               simp only [hlook, Bool.or_eq_true] at hTX
-              have hxn := xsiNilOf_append (attrPairsN cfg mp.attributeVars fields)
-                (fun kv hkv => (hAkeys kv hkv).1) (nl || mp.nillable)
+              have hxn := xsiNilOf_append (attrPairsT cfg M mp.attributeVars fields xt)
+                hAkeys (nl || mp.nillable)
               have hT : bindText e pcfg mp
-                  (xsiNilOf (attrPairsN cfg mp.attributeVars fields ++ nilAttr (nl || mp.nillable))) M
+                  (xsiNilOf (attrPairsT cfg M mp.attributeVars fields xt ++ nilAttr (nl || mp.nillable))) M
                   (bindEntries (attrParamsN cfg mp.attributeVars fields) []) none =
                   .ok ((nl || mp.nillable),
                     if (nl || mp.nillable) then (attrParamsN cfg mp.attributeVars fields).set tv.name .none
@@ -468,7 +595,7 @@ theorem main_stepN (ft : Feat) (e : BEnv) (Γ : Ctx) (cfg : SerCfg) (pcfg : Pars
                   rw [hf0] at hf'; cases hf'
                   exact hFgen _ hPA (Or.inr ⟨hPAtv, by rw [hlook, hdn]⟩)
               have hparse := parseNode_element_N e Γ pcfg mp q
-                (attrPairsN cfg mp.attributeVars fields ++ nilAttr (nl || mp.nillable)) M none [] [] {} _ _ _
+                (attrPairsT cfg M mp.attributeVars fields xt ++ nilAttr (nl || mp.nillable)) M none [] [] {} _ _ _
                 (.obj cls fields) MF.choices MF.wild
                 (fun h => by
                   rw [hxn] at h
@@ -477,13 +604,13 @@ theorem main_stepN (ft : Feat) (e : BEnv) (Γ : Ctx) (cfg : SerCfg) (pcfg : Pars
                   | true => exact (hneed hnc hN).1)
                 hK (fun _ h => by cases h) hWs0 (hBindA _ (fun hN => (hneed hnc hN).2)) hT hF
               have hsubw := SubW_elemN (M := M) (isDt := isDatatype Γ) q
-                (attrEvsN cfg mp.attributeVars fields ++ nilEvs (nl || mp.nillable))
-                (attrPairsN cfg mp.attributeVars fields) (nl || mp.nillable) [] []
-                (hAW _) (fun kv hkv => (hAkeys kv hkv).1) (BodyW_nil M _)
-              refine ⟨[Ev.start q] ++ (attrEvsN cfg mp.attributeVars fields ++ nilEvs (nl || mp.nillable)) ++
+                (attrEvsT cfg mp.attributeVars fields xt ++ nilEvs (nl || mp.nillable))
+                (attrPairsT cfg M mp.attributeVars fields xt) (nl || mp.nillable) [] []
+                (hAW _) hAkeys (BodyW_nil M _)
+              refine ⟨[Ev.start q] ++ (attrEvsT cfg mp.attributeVars fields xt ++ nilEvs (nl || mp.nillable)) ++
                   [] ++ [Ev.end q],
-                attrPairsN cfg mp.attributeVars fields ++ nilAttr (nl || mp.nillable), none, [], ?_, ?_, ?_,
-                ?_, noType_append _ (fun kv hkv => (hAkeys kv hkv).2) (nl || mp.nillable), ?_, ?_⟩
+                attrPairsT cfg M mp.attributeVars fields xt ++ nilAttr (nl || mp.nillable), none, [], ?_, ?_, ?_,
+                ?_, ?_, fun hgood => ⟨hXT _ _ hgood, ?_⟩⟩
               · simp [hNVe, hlook, emitOfN, hnillable, bind, Except.bind, pure, Except.pure]
               · simp [hlook, textHasData, textTextN]
               · simpa [hlook, textHasData, textTextN, treeSax, treesSax] using hsubw
@@ -492,7 +619,7 @@ theorem main_stepN (ft : Feat) (e : BEnv) (Γ : Ctx) (cfg : SerCfg) (pcfg : Pars
                 cases hN : (nl || mp.nillable) with
                 | false => exact Or.inl (by simp)
                 | true => exact Or.inr ⟨by simp, rfl⟩
-              · simpa [hlook, textHasData, textTextN] using hparse
+              · intro xtN; simpa [hlook, textHasData, textTextN] using hparse xtN
             · -- the text is a primitive
               rename_i p hlook
               simp only [Bool.and_eq_true, Bool.or_eq_true, decide_eq_true_eq] at hTX
@@ -500,14 +627,15 @@ theorem main_stepN (ft : Feat) (e : BEnv) (Γ : Ctx) (cfg : SerCfg) (pcfg : Pars
               obtain ⟨f', rfl⟩ : ∃ f', f = f' + 1 := ⟨f - 1, by omega⟩
               have hgen := genField_textN e Γ cfg f' (targetUri q) hmixed hisText hwrap
                 (encodePrimitive_prim hpt')
-              have hparse : parseNode e Γ pcfg
-                  (.element mp (attrPairsN cfg mp.attributeVars fields) M false none
-                    (xsiNilOf (attrPairsN cfg mp.attributeVars fields)))
-                  (.node q (attrPairsN cfg mp.attributeVars fields) M (optText (serPrim p)) [] none) =
+              have hparse : ∀ xtN, parseNode e Γ pcfg
+                  (.element mp (attrPairsT cfg M mp.attributeVars fields xt) M false xtN
+                    (xsiNilOf (attrPairsT cfg M mp.attributeVars fields xt)))
+                  (.node q (attrPairsT cfg M mp.attributeVars fields xt) M (optText (serPrim p)) [] none) =
                   .ok ⟨[(some q, .obj cls fields)], 0⟩ := by
+                intro xtN
                 by_cases hs : serPrim p = []
                 · have hp := (serPrim_eq_nil hpt').1 hs
-                  have hT : bindText e pcfg mp (xsiNilOf (attrPairsN cfg mp.attributeVars fields)) M
+                  have hT : bindText e pcfg mp (xsiNilOf (attrPairsT cfg M mp.attributeVars fields xt)) M
                       (bindEntries (attrParamsN cfg mp.attributeVars fields) []) (optText (serPrim p)) =
                       .ok (false, attrParamsN cfg mp.attributeVars fields, 0) := by
                     simp [bindText, htext, bindEntries, optText, hs, hxnA]
@@ -519,9 +647,9 @@ theorem main_stepN (ft : Feat) (e : BEnv) (Γ : Ctx) (cfg : SerCfg) (pcfg : Pars
                       exact Or.inr ⟨hPAtv, by rw [hlook, hdn, hp]⟩)
                   exact parseNode_element_N e Γ pcfg mp q _ M _ [] [] {} _ _ false (.obj cls fields)
                     MF.choices MF.wild (fun h => by rw [hxnA] at h; cases h) hK (fun _ h => by cases h)
-                    hWs0 hBindA0 hT hF
+                    hWs0 hBindA0 hT hF xtN
                 · have hpv := parseVar_serPrim e pcfg tv.toVarCore p t M htok' hty hpt'
-                  have hT : bindText e pcfg mp (xsiNilOf (attrPairsN cfg mp.attributeVars fields)) M
+                  have hT : bindText e pcfg mp (xsiNilOf (attrPairsT cfg M mp.attributeVars fields xt)) M
                       (bindEntries (attrParamsN cfg mp.attributeVars fields) []) (optText (serPrim p)) =
                       .ok (true, (attrParamsN cfg mp.attributeVars fields).set tv.name (.prim p), 0) := by
                     simp [bindText, htext, bindEntries, optText, hs, hpv, hinit, hxnA, bind, Except.bind,
@@ -533,20 +661,20 @@ theorem main_stepN (ft : Feat) (e : BEnv) (Γ : Ctx) (cfg : SerCfg) (pcfg : Pars
                     (Or.inl (by rw [Params.get_set_self, hlook]))
                   exact parseNode_element_N e Γ pcfg mp q _ M _ [] [] {} _ _ true (.obj cls fields)
                     MF.choices MF.wild (fun h => by rw [hxnA] at h; cases h) hK (fun _ h => by cases h)
-                    hWs0 hBindA0 hT hF
+                    hWs0 hBindA0 hT hF xtN
               have hsubw := SubW_elem_dataN (M := M) (isDt := isDatatype Γ) q
-                (attrEvsN cfg mp.attributeVars fields ++ nilEvs (nl || mp.nillable))
-                (attrPairsN cfg mp.attributeVars fields) (nl || mp.nillable) (.prim (.str (serPrim p)))
-                (some (serPrim p)) rfl (hAW _) (fun kv hkv => (hAkeys kv hkv).1)
-              refine ⟨[Ev.start q] ++ (attrEvsN cfg mp.attributeVars fields ++ nilEvs (nl || mp.nillable)) ++
+                (attrEvsT cfg mp.attributeVars fields xt ++ nilEvs (nl || mp.nillable))
+                (attrPairsT cfg M mp.attributeVars fields xt) (nl || mp.nillable) (.prim (.str (serPrim p)))
+                (some (serPrim p)) rfl (hAW _) hAkeys
+              refine ⟨[Ev.start q] ++ (attrEvsT cfg mp.attributeVars fields xt ++ nilEvs (nl || mp.nillable)) ++
                   [Ev.data (.prim (.str (serPrim p)))] ++ [Ev.end q],
-                attrPairsN cfg mp.attributeVars fields, optText (serPrim p), [], ?_, ?_, ?_, ?_,
-                fun kv hkv => (hAkeys kv hkv).2, Or.inl hxnA, ?_⟩
+                attrPairsT cfg M mp.attributeVars fields xt, optText (serPrim p), [], ?_, ?_, ?_, ?_,
+                Or.inl hxnA, fun hgood => ⟨hXT0 _ hgood, ?_⟩⟩
               · simp [hNVe, hlook, emitOfN, hgen, bind, Except.bind, pure, Except.pure]
               · simp [hlook, textHasData, textTextN]
               · simpa [hlook, textHasData, textTextN, treeSax_optText] using hsubw
               · simp [plain, plainList]
-              · simpa [hlook, textHasData, textTextN] using hparse
+              · intro xtN; simpa [hlook, textHasData, textTextN] using hparse xtN
             · cases hTX
     | none =>
       dsimp only
@@ -561,7 +689,7 @@ theorem main_stepN (ft : Feat) (e : BEnv) (Γ : Ctx) (cfg : SerCfg) (pcfg : Pars
       obtain ⟨f', rfl⟩ : ∃ f', f = f' + 1 := ⟨f - 1, by omega⟩
       -- per var: generator, writer and parser of its items
       have hB : ∀ var ∈ mp.elementVars,
-          VarBundle e Γ cfg pcfg M mp ci (targetUri q) (treeNN Γ cfg M n (targetUri mp.qname)) f' var
+          VarBundleG e Γ cfg pcfg M mp ci (targetUri q) (itemRec Γ cfg M n (targetUri mp.qname)) f' var
             (look fields var.name) := by
         intro var hv
         obtain ⟨hf, hk, _, _, hinitV⟩ := hEF var hv
@@ -569,13 +697,14 @@ theorem main_stepN (ft : Feat) (e : BEnv) (Γ : Ctx) (cfg : SerCfg) (pcfg : Pars
         simp only at hsz
         cases hk with
         | prim t hc hp ht hd =>
-          exact prim_bundle e Γ cfg pcfg M _ _ hf MF.wild hc hp ht hd hinitV _ (hbodyE var hv) f' (by omega)
+          exact (prim_bundle e Γ cfg pcfg M _ _ hf MF.wild hc hp ht hd hinitV _ (hbodyE var hv) f'
+            (by omega)).toG
         | cls c' m' hc htk ht hd hm hns' =>
           have hinitC : var.init = true := by
             rcases hinitV with h | h
             · exact h
             · simp [FN.fixedOK, hc] at h
-          exact cls_bundle e Γ cfg pcfg M n IH hf hc htk ht hd hm hns' q hns hv hinitC (hbodyE var hv) f'
+          exact cls_bundle ft e Γ cfg pcfg M n hΓ IH hf hc htk ht hd hm hns' q hns hv hinitC (hbodyE var hv) f'
             (by omega)
       -- `next_value`
       have hVS : ∀ var ∈ mp.elementVars, VarSeq fields var := fun var hv =>
@@ -586,21 +715,28 @@ theorem main_stepN (ft : Feat) (e : BEnv) (Γ : Ctx) (cfg : SerCfg) (pcfg : Pars
         intro c hc y hy
         exact (mem_entries hspec hEnames (List.mem_flatMap.2 ⟨c, hc,
           by simp only [chunkEntries, List.mem_map]; exact ⟨y, hy, rfl⟩⟩)).2
+      -- the fuel of the items of a chunk
+      have hfuelOf : ∀ c ∈ R, (chunkFuel c.2 f' = f' + 1 ∨
+          (chunkFuel c.2 f' = f' ∧ (look fields c.1.name).isArray = true)) := by
+        intro c hc
+        obtain ⟨hv, hs, hem, harr⟩ := hspec.1 c hc
+        unfold chunkFuel
+        by_cases ha : c.2.isArray = true
+        · rw [if_pos ha]; exact Or.inr ⟨rfl, by rw [← harr ha]; exact ha⟩
+        · rw [if_neg ha]; exact Or.inl rfl
       -- the generator
       obtain ⟨body, hbodyEq, hBodyW, hbodyNil⟩ := body_genN e Γ cfg M (targetUri q)
-        (treeNN Γ cfg M n (targetUri mp.qname)) (m := mp) R f'
+        (itemRec Γ cfg M n (targetUri mp.qname)) (m := mp) R f'
         (fun c hc => by
           obtain ⟨hv, hs, hem, harr⟩ := hspec.1 c hc
-          refine ⟨(hEF _ hv).1, hs, hem, fun y hy => ((hB _ hv).items y (hitemOf c hc y hy) _ ?_).1⟩
-          unfold chunkFuel
-          by_cases ha : c.2.isArray = true
-          · rw [if_pos ha]; exact Or.inr ⟨rfl, by rw [← harr ha]; exact ha⟩
-          · rw [if_neg ha]; exact Or.inl rfl)
+          refine ⟨(hEF _ hv).1, hs, hem, fun y hy => ?_⟩
+          obtain ⟨⟨evs, hg, hsw, _⟩, _⟩ := (hB _ hv).items y (hitemOf c hc y hy) _ (hfuelOf c hc)
+          exact ⟨evs, hg, hsw⟩)
       -- emptiness of the content on both sides
       have hempty : body.flatten.isEmpty =
-          (R.flatMap fun c => chunkTrees M (itemTreeNN M (treeNN Γ cfg M n (targetUri mp.qname)) c.1) c.1 c.2).isEmpty := by
+          (R.flatMap fun c => chunkTrees M (itemTreeNN M (itemRec Γ cfg M n (targetUri mp.qname)) c.1) c.1 c.2).isEmpty := by
         cases hk : (R.flatMap fun c =>
-            chunkTrees M (itemTreeNN M (treeNN Γ cfg M n (targetUri mp.qname)) c.1) c.1 c.2) with
+            chunkTrees M (itemTreeNN M (itemRec Γ cfg M n (targetUri mp.qname)) c.1) c.1 c.2) with
         | nil => rw [hbodyNil hk]; rfl
         | cons t ts =>
           cases hb : body.flatten with
@@ -610,26 +746,36 @@ theorem main_stepN (ft : Feat) (e : BEnv) (Γ : Ctx) (cfg : SerCfg) (pcfg : Pars
             exact absurd (treesSax_eq_nil this) (by simp)
           | cons _ _ => rfl
       -- the entries
-      have hentry : ∀ en ∈ R.flatMap chunkEntries,
-          ElemFactsN mp en.1 ∧
-          plain M (itemTreeNN M (treeNN Γ cfg M n (targetUri mp.qname)) en.1 en.2) = true ∧
-          ItemP e Γ pcfg M mp en.1 en.2 (itemTreeNN M (treeNN Γ cfg M n (targetUri mp.qname)) en.1 en.2) := by
+      have hentry : ∀ en ∈ R.flatMap chunkEntries, ElemFactsN mp en.1 := by
         intro en hen
         obtain ⟨hv, hy⟩ := mem_entries hspec hEnames hen
-        exact ⟨(hEF _ hv).1, ((hB _ hv).items _ hy _ (Or.inl rfl)).2.1,
-          ((hB _ hv).items _ hy _ (Or.inl rfl)).2.2⟩
+        exact (hEF _ hv).1
+      -- the parser side of the items, once the prefix map serves the `xsi:type`s of the whole element
+      have hitemP : TypesGood e M ([Ev.start q] ++
+            (attrEvsT cfg mp.attributeVars fields xt ++ nilEvs (nl || mp.nillable)) ++ body.flatten ++ [Ev.end q]) →
+          ∀ c ∈ R, ∀ en ∈ chunkEntries c,
+            ItemP e Γ pcfg M mp en.1 en.2 (itemTreeNN M (itemRec Γ cfg M n (targetUri mp.qname)) en.1 en.2) := by
+        intro hgood c hc en hen
+        simp only [chunkEntries, List.mem_map] at hen
+        obtain ⟨y, hy, rfl⟩ := hen
+        obtain ⟨hv, hs, hem, harr⟩ := hspec.1 c hc
+        obtain ⟨⟨evs, hg, _, hI⟩, _⟩ := (hB _ hv).items y (hitemOf c hc y hy) _ (hfuelOf c hc)
+        apply hI
+        apply hgood.mono
+        intro ev hev
+        have := item_evs_mem_body e Γ cfg (targetUri q) R f' hbodyEq hc (hEF _ hv).1 hs hem hy hg ev hev
+        simp [this]
       have hplainK : plainList M (R.flatMap fun c =>
-          chunkTrees M (itemTreeNN M (treeNN Γ cfg M n (targetUri mp.qname)) c.1) c.1 c.2) = true := by
+          chunkTrees M (itemTreeNN M (itemRec Γ cfg M n (targetUri mp.qname)) c.1) c.1 c.2) = true := by
         rw [plainList_iff]
         intro t ht
         obtain ⟨c, hc, htc⟩ := List.mem_flatMap.1 ht
         exact (plainList_iff M _).1 (plain_chunkTrees (fun y hy =>
-          ((hB _ (hspec.1 c hc).1).items y (hitemOf c hc y hy) _ (Or.inl rfl)).2.1)) t htc
+          ((hB _ (hspec.1 c hc).1).items y (hitemOf c hc y hy) _ (Or.inl rfl)).2)) t htc
       -- the parser
-      have hK' := parseKids_chunks e Γ pcfg M MF.choices MF.wild
-        (fun en => itemTreeNN M (treeNN Γ cfg M n (targetUri mp.qname)) en.1 en.2) R {}
-        (fun c hc => ⟨(hEF _ (hspec.1 c hc).1).1, fun en hen =>
-          (hentry en (List.mem_flatMap.2 ⟨c, hc, hen⟩)).2.2⟩)
+      have hK' := fun hgood => parseKids_chunks e Γ pcfg M MF.choices MF.wild
+        (fun en => itemTreeNN M (itemRec Γ cfg M n (targetUri mp.qname)) en.1 en.2) R {}
+        (fun c hc => ⟨(hEF _ (hspec.1 c hc).1).1, fun en hen => hitemP hgood c hc en hen⟩)
         (AssignedOK_spec hspec hEnames MF.idxNodup (fun var hv => (hB var hv).short))
       have hWs : WsOK (stAfterChunks {} R).wrappers (R.flatMap chunkEntries) := by
         apply WsOK_of_queues
@@ -667,7 +813,7 @@ theorem main_stepN (ft : Feat) (e : BEnv) (Γ : Ctx) (cfg : SerCfg) (pcfg : Pars
         intro xn; simp [bindText, htext]
       -- `xsi:nil` is kept only without content, and then the class is nillable
       have hnilkept : (R.flatMap fun c =>
-            chunkTrees M (itemTreeNN M (treeNN Γ cfg M n (targetUri mp.qname)) c.1) c.1 c.2) = [] →
+            chunkTrees M (itemTreeNN M (itemRec Γ cfg M n (targetUri mp.qname)) c.1) c.1 c.2) = [] →
           (nl || mp.nillable) = true → mp.nillable = true ∧ mp.anyAttributes = [] := by
         intro hk hN
         simp only [Bool.or_eq_true, Bool.not_eq_true', List.any_eq_true] at hcontent
@@ -685,7 +831,7 @@ theorem main_stepN (ft : Feat) (e : BEnv) (Γ : Ctx) (cfg : SerCfg) (pcfg : Pars
               rw [hfl]; simp
             obtain ⟨c, hc, hyc⟩ := List.mem_flatMap.1 hy
             have hcR := (List.mem_filter.1 hc).1
-            have htrees : chunkTrees M (itemTreeNN M (treeNN Γ cfg M n (targetUri mp.qname)) c.1) c.1 c.2 ≠ [] := by
+            have htrees : chunkTrees M (itemTreeNN M (itemRec Γ cfg M n (targetUri mp.qname)) c.1) c.1 c.2 ≠ [] := by
               simp only [chunkTrees]
               cases c.1.wrapperQName with
               | some w => simp
@@ -693,42 +839,42 @@ theorem main_stepN (ft : Feat) (e : BEnv) (Γ : Ctx) (cfg : SerCfg) (pcfg : Pars
                 simp only [ne_eq, List.map_eq_nil_iff]
                 intro h0; rw [h0] at hyc; cases hyc
             apply htrees
-            have hsub : ∀ t ∈ chunkTrees M (itemTreeNN M (treeNN Γ cfg M n (targetUri mp.qname)) c.1) c.1 c.2,
+            have hsub : ∀ t ∈ chunkTrees M (itemTreeNN M (itemRec Γ cfg M n (targetUri mp.qname)) c.1) c.1 c.2,
                 t ∈ (R.flatMap fun c =>
-                  chunkTrees M (itemTreeNN M (treeNN Γ cfg M n (targetUri mp.qname)) c.1) c.1 c.2) :=
+                  chunkTrees M (itemTreeNN M (itemRec Γ cfg M n (targetUri mp.qname)) c.1) c.1 c.2) :=
               fun t ht => List.mem_flatMap.2 ⟨c, hcR, ht⟩
             rw [hk] at hsub
-            cases hct : chunkTrees M (itemTreeNN M (treeNN Γ cfg M n (targetUri mp.qname)) c.1) c.1 c.2 with
+            cases hct : chunkTrees M (itemTreeNN M (itemRec Γ cfg M n (targetUri mp.qname)) c.1) c.1 c.2 with
             | nil => rfl
             | cons t ts => exact absurd (hsub t (by rw [hct]; simp)) (by simp)
       simp only [kidsN, hvalsN]
       generalize hkids : (R.flatMap fun c =>
-          chunkTrees M (itemTreeNN M (treeNN Γ cfg M n (targetUri mp.qname)) c.1) c.1 c.2) = kids
+          chunkTrees M (itemTreeNN M (itemRec Γ cfg M n (targetUri mp.qname)) c.1) c.1 c.2) = kids
         at hBodyW hbodyNil hempty hplainK hK' hnilkept
       have hsubw := SubW_elemN (M := M) (isDt := isDatatype Γ) q
-        (attrEvsN cfg mp.attributeVars fields ++ nilEvs (nl || mp.nillable))
-        (attrPairsN cfg mp.attributeVars fields) (nl || mp.nillable) body.flatten _
-        (hAW _) (fun kv hkv => (hAkeys kv hkv).1) hBodyW
+        (attrEvsT cfg mp.attributeVars fields xt ++ nilEvs (nl || mp.nillable))
+        (attrPairsT cfg M mp.attributeVars fields xt) (nl || mp.nillable) body.flatten _
+        (hAW _) hAkeys hBodyW
       rw [hempty] at hsubw
       cases hke : kids.isEmpty with
       | true =>
         have hk0 : kids = [] := by simpa using hke
-        have hxn := xsiNilOf_append (attrPairsN cfg mp.attributeVars fields)
-          (fun kv hkv => (hAkeys kv hkv).1) (nl || mp.nillable)
-        have hparse := parseNode_element_N e Γ pcfg mp q
-          (attrPairsN cfg mp.attributeVars fields ++ nilAttr (nl || mp.nillable)) M none kids _ _ _ _
+        have hxn := xsiNilOf_append (attrPairsT cfg M mp.attributeVars fields xt)
+          hAkeys (nl || mp.nillable)
+        have hparse := fun hgood => parseNode_element_N e Γ pcfg mp q
+          (attrPairsT cfg M mp.attributeVars fields xt ++ nilAttr (nl || mp.nillable)) M none kids _ _ _ _
           false (.obj cls fields) MF.choices MF.wild
           (fun h => by
             rw [hxn] at h
             cases hN : (nl || mp.nillable) with
             | false => simp [hN] at h
             | true => exact (hnilkept hk0 hN).1)
-          hK' (fun en hen => (hentry en hen).1) hWs (hBindA _ (fun hN => (hnilkept hk0 hN).2)) (hT _) hF
-        refine ⟨[Ev.start q] ++ (attrEvsN cfg mp.attributeVars fields ++ nilEvs (nl || mp.nillable)) ++
+          (hK' hgood) hentry hWs (hBindA _ (fun hN => (hnilkept hk0 hN).2)) (hT _) hF
+        refine ⟨[Ev.start q] ++ (attrEvsT cfg mp.attributeVars fields xt ++ nilEvs (nl || mp.nillable)) ++
             body.flatten ++ [Ev.end q],
-          attrPairsN cfg mp.attributeVars fields ++ nilAttr (nl || mp.nillable), none, kids, ?_,
+          attrPairsT cfg M mp.attributeVars fields xt ++ nilAttr (nl || mp.nillable), none, kids, ?_,
           by simp, ?_, ?_,
-          noType_append _ (fun kv hkv => (hAkeys kv hkv).2) (nl || mp.nillable), ?_, ?_⟩
+          ?_, fun hgood => ⟨hXT _ _ hgood, ?_⟩⟩
         · simp only [hNVe, hbodyEq, bind, Except.bind, pure, Except.pure]
         · simpa [hke, treeSax] using hsubw
         · simp [hke, plain, hplainK]
@@ -736,40 +882,40 @@ theorem main_stepN (ft : Feat) (e : BEnv) (Γ : Ctx) (cfg : SerCfg) (pcfg : Pars
           cases hN : (nl || mp.nillable) with
           | false => exact Or.inl (by simp)
           | true => exact Or.inr ⟨by simp, rfl⟩
-        · simpa [hke] using hparse
+        · intro xtN; simpa [hke] using hparse hgood xtN
       | false =>
-        have hxn : xsiNilOf (attrPairsN cfg mp.attributeVars fields) = none := by
-          simpa [nilAttr] using xsiNilOf_append (attrPairsN cfg mp.attributeVars fields)
-            (fun kv hkv => (hAkeys kv hkv).1) false
-        have hparse := parseNode_element_N e Γ pcfg mp q
-          (attrPairsN cfg mp.attributeVars fields) M none kids _ _ _ _
+        have hxn : xsiNilOf (attrPairsT cfg M mp.attributeVars fields xt) = none := by
+          simpa [nilAttr] using xsiNilOf_append (attrPairsT cfg M mp.attributeVars fields xt)
+            hAkeys false
+        have hparse := fun hgood => parseNode_element_N e Γ pcfg mp q
+          (attrPairsT cfg M mp.attributeVars fields xt) M none kids _ _ _ _
           false (.obj cls fields) MF.choices MF.wild
           (fun h => by rw [hxn] at h; cases h)
-          hK' (fun en hen => (hentry en hen).1) hWs (by simpa [nilAttr] using hBindA false (fun h => by cases h)) (hT _) hF
-        refine ⟨[Ev.start q] ++ (attrEvsN cfg mp.attributeVars fields ++ nilEvs (nl || mp.nillable)) ++
-            body.flatten ++ [Ev.end q], attrPairsN cfg mp.attributeVars fields, none, kids, ?_,
+          (hK' hgood) hentry hWs (by simpa [nilAttr] using hBindA false (fun h => by cases h)) (hT _) hF
+        refine ⟨[Ev.start q] ++ (attrEvsT cfg mp.attributeVars fields xt ++ nilEvs (nl || mp.nillable)) ++
+            body.flatten ++ [Ev.end q], attrPairsT cfg M mp.attributeVars fields xt, none, kids, ?_,
           by simp, ?_, ?_,
-          fun kv hkv => (hAkeys kv hkv).2, Or.inl hxn, ?_⟩
+          Or.inl hxn, fun hgood => ⟨hXT0 _ hgood, ?_⟩⟩
         · simp only [hNVe, hbodyEq, bind, Except.bind, pure, Except.pure]
         · simpa [hke, treeSax] using hsubw
         · simp [hke, plain, hplainK]
-        · simpa [hke] using hparse
+        · intro xtN; simpa [hke] using hparse hgood xtN
   | _ => simp [FN.valObjN] at hval
 
 
 theorem main_allN (ft : Feat) (e : BEnv) (Γ : Ctx) (cfg : SerCfg) (pcfg : ParserConfig) (M : NsMap)
-    (hΓ : ctxOK ft Γ = true) : ∀ n, MainStmtN e Γ cfg pcfg M n
+    (hΓ : ctxOK ft Γ = true) : ∀ n, MainStmtN ft e Γ cfg pcfg M n
   | 0 => by
-    intro v c pnsG pnsP oq q fuel mg mp nl _ _ _ _ _ hval _
+    intro v c pnsG pnsP oq q fuel mg mp nl xt _ _ _ _ _ hval _
     simp [FN.valObjN] at hval
   | n + 1 => main_stepN ft e Γ cfg pcfg M hΓ n (main_allN ft e Γ cfg pcfg M hΓ n)
 
 /-- the round trip for the fragment of feature set `ft`: generate, write, read back, parse -/
 theorem roundtrip_FN (ft : Feat) (e : BEnv) (Γ : Ctx) (cfg : SerCfg) (pcfg : ParserConfig)
-    (c : ClassId) (v : Val) (hΓ : ctxOK ft Γ = true) (hv : valOK e Γ c v = true) :
+    (c : ClassId) (v : Val) (hΓ : ctxOK ft Γ = true) (hv : valOKI ft.inherit e Γ c v = true) :
     ∃ evs t, generate e Γ cfg v = .ok evs ∧ eventsTree (isDatatype Γ) evs = .ok t ∧
       parseRoot e Γ pcfg c t = .ok (v, 0) := by
-  unfold valOK at hv
+  unfold valOKI at hv
   obtain ⟨n, hn⟩ : ∃ n, v.size = n + 1 := ⟨v.size - 1, by cases v <;> simp [Val.size] <;> omega⟩
   rw [hn] at hv
   obtain ⟨fields, rfl⟩ : ∃ fields, v = .obj c fields := by
@@ -787,13 +933,14 @@ theorem roundtrip_FN (ft : Feat) (e : BEnv) (Γ : Ctx) (cfg : SerCfg) (pcfg : Pa
   have hgenEq : generate e Γ cfg (.obj c fields) =
       genObj e Γ cfg (4 * (Val.obj c fields).size + 8) (.obj c fields) none none false none := rfl
   have key := fun M => main_allN ft e Γ cfg pcfg M hΓ (n + 1) (.obj c fields) c none none none m.qname
-    (4 * (Val.obj c fields).size + 8) m m false hm hm rfl rfl (nsAgree_self Γ m) hv (by omega)
+    (4 * (Val.obj c fields).size + 8) m m false none hm hm rfl rfl (nsAgreeN_self ft Γ m) hv (by omega)
   obtain ⟨evs, _, _, _, hgen0, _⟩ := key []
-  obtain ⟨evs', a, text, kids, hgen, htree, hsub, hplain, hxt, _, hparse⟩ :=
+  obtain ⟨evs', a, text, kids, hgen, htree, hsub, hplain, _, hP⟩ :=
     key (prefixMap (collectUris evs))
   have hevs : evs' = evs := by rw [hgen0] at hgen; cases hgen; rfl
   subst hevs
-  refine ⟨evs', treeNN Γ cfg (prefixMap (collectUris evs')) (n + 1) none false m.qname (.obj c fields),
+  obtain ⟨hxt, hparse⟩ := hP (typesGood_prefixMap e evs')
+  refine ⟨evs', treeNN Γ cfg (prefixMap (collectUris evs')) (n + 1) none false none m.qname (.obj c fields),
     by rw [hgenEq]; exact hgen, ?_, ?_⟩
   · have hfold := hsub.2 {} rfl (fun _ => rfl)
     simp only [eventsTree, eventsSax, hfold, bind, Except.bind, pure, Except.pure, afterW,
@@ -802,6 +949,6 @@ theorem roundtrip_FN (ft : Feat) (e : BEnv) (Γ : Ctx) (cfg : SerCfg) (pcfg : Pa
     have hfetch : Γ.fetch c none none = .ok m := by
       simp only [metaOf] at hm
       simp [Ctx.fetch, hm]
-    simp [parseRoot, xsiTypeOf_none e a _ hxt, hfetch, hparse, bind, Except.bind, pure, Except.pure]
+    simp [parseRoot, hxt, hfetch, hparse, bind, Except.bind, pure, Except.pure]
 
 end Proofs.C01
